@@ -9,7 +9,9 @@ import (
 	"flag"
 	"fmt"
 	"os"
+	"os/exec"
 	"path/filepath"
+	"regexp"
 	"sort"
 	"strconv"
 	"strings"
@@ -30,6 +32,7 @@ func main() {
 	list := flag.Bool("list", false, "list properties and rules")
 	dump := flag.Bool("dump", false, "print every obligation")
 	noEvidence := flag.Bool("no-evidence", false, "do not write evidence/report files (selftest)")
+	goenv := flag.String("goenv", "", "comma-separated build configuration overrides for the load, e.g. GOARCH=386")
 	flag.Parse()
 
 	props := allProperties()
@@ -72,7 +75,11 @@ func main() {
 	}
 
 	t0 := time.Now()
-	w, err := loadWorld(*repo)
+	var extraEnv []string
+	if *goenv != "" {
+		extraEnv = strings.Split(*goenv, ",")
+	}
+	w, err := loadWorld(*repo, extraEnv...)
 	if err != nil {
 		// A tree that does not load/type-check cannot be decided: fail loudly.
 		fmt.Printf("ERROR: cannot analyse %s: %v\n", *repo, err)
@@ -123,6 +130,24 @@ func main() {
 				discharged++
 			}
 		}
+		// thorough: the same rules over /repo loaded under other build
+		// configurations (one child process each, so nothing is shared)
+		var alts []altResult
+		if len(w.Ignored) > 0 {
+			c.note("files excluded by build constraints in this configuration: %v - the other build configurations are analysed as well", w.Ignored)
+		}
+		if (*tier == "thorough" || len(w.Ignored) > 0) && *goenv == "" {
+			for _, env := range altConfigs {
+				a := runAlt(p.ID, *repo, *verif, env, known)
+				alts = append(alts, a)
+				for _, v := range a.Violations {
+					viol = append(viol, Obligation{Rule: v.Rule, Key: v.Key, Site: "[" + env + "] " + v.Site, Verdict: "violated", Detail: v.Detail})
+				}
+				if a.Files != w.NumFiles {
+					c.note("build configuration %s compiles %d Go files, the default configuration %d: build-constrained sources exist", env, a.Files, w.NumFiles)
+				}
+			}
+		}
 		if *dump {
 			for _, o := range c.obls {
 				fmt.Printf("  %-12s %-10s %-60s %s  %s\n", o.Verdict, o.Rule, o.Key, o.Site, o.Detail)
@@ -162,18 +187,19 @@ func main() {
 				"coverage": map[string]interface{}{
 					"explanation": "Static analysis of /repo's current source (no tengo code is executed). DECIDED: " + p.Decided +
 						" NOT DECIDED (outside what a sound static argument reaches here): " + p.NotDecided,
-					"obligations":              len(c.obls),
-					"discharged":               discharged,
-					"distinct_constructs":      distinctKeys(c.obls),
-					"rules":                    sums,
-					"samples":                  sampleObls(c.obls, 6),
-					"packages":                 len(w.All),
-					"functions_in_scope":       w.NumFuncs,
-					"known_findings_rederived": kf,
-					"notes":                    c.notes,
-					"checker_cmd":              strings.Join(os.Args, " "),
-					"trusted_base":             trustedBase,
-					"exhaustive":               false,
+					"obligations":                len(c.obls),
+					"discharged":                 discharged,
+					"distinct_constructs":        distinctKeys(c.obls),
+					"rules":                      sums,
+					"samples":                    sampleObls(c.obls, 6),
+					"packages":                   len(w.All),
+					"functions_in_scope":         w.NumFuncs,
+					"known_findings_rederived":   kf,
+					"notes":                      c.notes,
+					"other_build_configurations": alts,
+					"checker_cmd":                strings.Join(os.Args, " "),
+					"trusted_base":               trustedBase,
+					"exhaustive":                 false,
 				},
 				"assumptions": []string{
 					"go/types, go/cfg and x/tools SSA/call graph are sound for this code (no unsafe, no cgo; reflection only in trace/format helpers)",
@@ -188,10 +214,65 @@ func main() {
 				exit = 2
 			}
 		}
-		fmt.Printf("%s %s: obligations=%d discharged=%d known=%d violations=%d (%.1fs)\n",
-			p.ID, *tier, len(c.obls), discharged, len(knownHit), len(viol), time.Since(t1).Seconds()+loadS)
+		for _, a := range alts {
+			fmt.Printf("%s build-config [%s]: files=%d obligations=%d discharged=%d known=%d violations=%d\n", p.ID, a.Env, a.Files, a.Obligations, a.Discharged, a.Known, len(a.Violations))
+		}
+		fmt.Printf("%s %s: files=%d obligations=%d discharged=%d known=%d violations=%d (%.1fs)\n",
+			p.ID, *tier, w.NumFiles, len(c.obls), discharged, len(knownHit), len(viol), time.Since(t1).Seconds()+loadS)
 	}
 	os.Exit(exit)
+}
+
+// altConfigs are the additional build configurations of the thorough tier.
+var altConfigs = []string{"GOARCH=386", "GOOS=windows"}
+
+type altViolation struct{ Rule, Key, Site, Detail string }
+
+type altResult struct {
+	Env         string         `json:"env"`
+	Files       int            `json:"go_files"`
+	Obligations int            `json:"obligations"`
+	Discharged  int            `json:"discharged"`
+	Known       int            `json:"known_findings"`
+	Violations  []altViolation `json:"violations"`
+	Error       string         `json:"error,omitempty"`
+}
+
+var (
+	reAltSum  = regexp.MustCompile(`^(C\d+) quick: files=(\d+) obligations=(\d+) discharged=(\d+) known=(\d+) violations=(\d+)`)
+	reAltViol = regexp.MustCompile(`^  violation: rule=(\S+) key=(.*?) site=(\S+) : (.*)$`)
+)
+
+// runAlt re-runs this binary on the same tree under another build
+// configuration and parses its report. Anything but a clean parse is a
+// violation (a configuration that cannot be analysed is not silently skipped).
+func runAlt(prop, repo, verif, env string, known *KnownFile) altResult {
+	a := altResult{Env: env}
+	cmd := exec.Command(os.Args[0], "-prop", prop, "-tier", "quick", "-repo", repo, "-verif", verif, "-no-evidence", "-goenv", env)
+	out, err := cmd.Output()
+	seen := false
+	for _, ln := range strings.Split(string(out), "\n") {
+		if m := reAltSum.FindStringSubmatch(ln); m != nil {
+			seen = true
+			a.Files, _ = strconv.Atoi(m[2])
+			a.Obligations, _ = strconv.Atoi(m[3])
+			a.Discharged, _ = strconv.Atoi(m[4])
+			a.Known, _ = strconv.Atoi(m[5])
+		}
+		if m := reAltViol.FindStringSubmatch(ln); m != nil {
+			a.Violations = append(a.Violations, altViolation{m[1], m[2], m[3], m[4]})
+		}
+		if strings.HasPrefix(ln, "ERROR:") {
+			a.Error = ln
+		}
+	}
+	if !seen || a.Error != "" || (err != nil && len(a.Violations) == 0) {
+		if a.Error == "" {
+			a.Error = fmt.Sprintf("child run failed: %v", err)
+		}
+		a.Violations = append(a.Violations, altViolation{"LOAD", "build-configuration/" + env, "-", "the tree cannot be analysed under " + env + ": " + a.Error})
+	}
+	return a
 }
 
 func propListed(list, id string) bool {
